@@ -11,7 +11,7 @@ import (
 
 func main() {
 	if len(os.Args) < 2 {
-		fmt.Fprintln(os.Stderr, "usage: h2lib <prio-run|frame-run|hpack-run|hpack-record|hpackdec-run|huff-table>")
+		fmt.Fprintln(os.Stderr, "usage: h2lib <prio-run|frame-run|hpack-run|hpack-record|hpackdec-run>")
 		os.Exit(2)
 	}
 	defer vh.Flush()
@@ -26,8 +26,6 @@ func main() {
 		hpackRecord()
 	case "hpackdec-run":
 		hpackDecRun()
-	case "huff-table":
-		huffTable()
 	default:
 		fmt.Fprintln(os.Stderr, "unknown subcommand", os.Args[1])
 		vh.Flush()
